@@ -111,6 +111,14 @@ def gen_C01(rng, tier):
                                ('rec', False)])
         d, pre = rng.choice([(node, []), ({'k': node}, [('key', 'k', 'item')]), ([node], [('idx', 0)])])
         out.append(Q({'doc': d, 'cmds': [('iter', 'doc', qcase.fix_path(pre + [step]), rng.random() < 0.3, False), ('drain', 0, 40, 1)]}))
+    # slices: every combination of small bounds and steps over lists of 0-7 items (C01-m6: a stride anchored at the wrong end)
+    for _ in range(sized(tier, 400, 6000)):
+        n = rng.randrange(8)
+        node = list(range(10, 10 + n))
+        b = [None, 0, 1, 2, 3, 5, 9, -1, -2, -3, -5, -9]
+        step = ('slice', rng.choice(b), rng.choice(b), rng.choice([None, 1, 2, 3, -1, -2, -3, 7, -7]))
+        d, pre = rng.choice([(node, []), ({'k': node}, [('key', 'k', 'item')])])
+        out.append(Q({'doc': d, 'cmds': [('iter', 'doc', pre + [step], rng.random() < 0.5, False), ('drain', 0, 40, 1)]}))
     return out
 
 
@@ -134,6 +142,13 @@ def gen_C02(rng, tier):
         if not has_kind(p, ('rec',)):
             i = rng.randint(0, len(p))
             p = qcase.fix_path(p[:i] + [('rec', False)] + p[i:])
+        if rng.random() < 0.3:
+            # the remainder of the path is evaluated at containers only: a filter or a parent step written directly
+            # after the recursive step never sees the scalars below (C02-m6)
+            i = [j for j, st in enumerate(p) if st[0] == 'rec'][0]
+            ins = rng.choice([[('pred', ('user', 'data'))], [('pred', ('user', 'const', 1))], [('parent',)],
+                              [('pred', ('user', 'data_eq', rng.choice(qcase.SCALARS)))]])
+            p = qcase.fix_path(p[:i + 1] + ins + p[i + 1:])
         out.append(Q({'doc': d, 'cmds': [('iter', 'doc', p, False, False), ('drain', 0, 80, 1)]}))
         n += 1
     return out
@@ -476,6 +491,19 @@ def gen_C11(rng, tier):
                     ('eq', 0, 1), ('eq', 1, 0), ('describe', 0), ('describe', 1)]
             out.append(Q({'doc': d, 'cmds': cmds}))
             continue
+        if rng.random() < 0.12:
+            # keys spelled like members of the path builder: Match.path must address them as keys (C11-m6)
+            words = ['parent', 'wc', 'rec', 'shape', 'wildcard', 'gwc', 'recursive', 'path', 'generic_wildcard']
+            ks = rng.sample(words, rng.choice([2, 3, 4]))
+            d = {k: rng.choice([1, 'x', None, [1, {ks[0]: 2}], {ks[-1]: 0, 'a': [3]}]) for k in ks}
+            d = json.loads(json.dumps(d))
+            p = rng.choice([[('gwc', True, False)], [('rec', False)], [('wc', False)], [('rec', False), ('gwc', True, False)],
+                            [('key', ks[0], 'item')], [('tuple', ks[:2])]])
+            cmds = [('iter', 'doc', qcase.fix_path(p), False, False), ('drain', 0, 12, 0)]
+            for i in range(10):
+                cmds += [('describe', i), ('roundtrip', i)]
+            out.append(Q({'doc': d, 'cmds': cmds}))
+            continue
         if rng.random() < 0.4:
             q = derive_path(rng, d, CHILD + ('rec', 'pred'), maxextra=1, pred_depth=1)
             cmds += [('iter', 'doc', q, False, False), ('drain', 1, 6, 0)]
@@ -711,6 +739,7 @@ def nontrivial_trace(case, o):
 
 def gen_C20(rng, tier):
     out = [{'family': 'c', 'case': ccase.gen_ccase(rng)} for _ in range(sized(tier, 8, 60))]
+    out.append({'family': 'f', 'case': {'finding': 'MANY', 'n': 400000}})
     for _ in range(sized(tier, 1500, 20000)):
         d = rand_doc(rng, big=rng.random() < 0.3)
         p = derive_path(rng, d, CHILD + ('rec', 'parent'), maxextra=2, pred_depth=1)
@@ -874,8 +903,11 @@ REGISTRY = {
                      "events and >= 1 result; plus builder histories drained under the library's own tracer "
                      "log_to(lines.append), the lines compared with the model of trace._log (repr quoting, escaping, "
                      "20-character cut, vertex segments)", obligations=[]),
-    'C20': dict(level='proof', gen=gen_C20, oracle=lambda c, o: oracle_C20(c, o) if c['family'] == 'q' else [],
-                nontrivial=lambda c, o: len(scan(o, 'trace')) >= 5 or c['family'] == 'c',
+    'C20': dict(level='proof', gen=gen_C20,
+                oracle=lambda c, o: oracle_C20(c, o) if c['family'] == 'q' else
+                ([] if c['family'] != 'f' or o == ('N', 'f', [('S', 'results:400000,400000')]) else
+                 ["a finite document with 400 000 results was not traversed to the end: %r" % (o,)]),
+                nontrivial=lambda c, o: len(scan(o, 'trace')) >= 5 or c['family'] in ('c', 'f'),
                 rule="traced drains on documents up to 60 nodes (has-family filters included); cyclic dict/list structures of "
                      "2-6 nodes with recursive paths with and without reachable matches, find and find_matches, 1-3 next() calls "
                      "each against the real 1 000 000-action budget under a watchdog; non-trivial = >= 5 match attempts, or a "
